@@ -254,13 +254,14 @@ func isoWorker(run *ev.Run, spec isoSpec, w, n, startAfter int, dir string) {
 	part := os.Getenv("VERIF_PART")
 	done := 0
 	// Runaway recursion: Go's default goroutine stack limit is 1 GB, which a decoder that recurses without
-	// consuming input only reaches after minutes (the tree it builds on the way is what is slow). Workers run
-	// with a 256 MB limit: inputs here are <= 16 KiB, so a stack of 256 MB means >= 16 KB of stack per input
-	// byte — recursion that is not bounded by the input (or that overflows the real limit on a 4x larger input
-	// of the same shape). While the stack is still growing the worker touches its journal so that the parent's
-	// silence watchdog lets it reach the fault; "fatal error: stack overflow" then kills the worker and the
-	// parent reports it as the runtime fault it is.
-	debug.SetMaxStack(256 << 20)
+	// consuming input only reaches after many minutes (every garbage collection scans the ever deeper stack:
+	// measured on a self-referencing bplist under force: 128 MB of stack in use after ~4 s, 256 MB not within
+	// 5 min). Workers run with a 128 MB limit: inputs here are <= 16 KiB, so 128 MB of stack in use means >= 8 KB
+	// of stack per input byte — recursion that is not bounded by the input (or that overflows the real limit on
+	// an 8x larger input of the same shape). While the stack is still growing the worker touches its journal so
+	// that the parent's silence watchdog lets it reach the fault; "fatal error: stack overflow" then kills the
+	// worker and the parent reports it as the runtime fault it is.
+	debug.SetMaxStack(128 << 20)
 	go func() {
 		var last uint64
 		var ms runtime.MemStats
